@@ -55,6 +55,7 @@ class Seq:
         self.abs2real = {}
         self.problems = []
         self.oracle_fail = []
+        self.known = set()
 
     def key(self, ident):
         return json.dumps(ident)
@@ -105,6 +106,10 @@ class Seq:
                     self.oracle_fail.append({"why": "a successful mutating command did not add exactly one entry with a fresh id",
                                              "step": stepno, "cmd": c, "new": [x["id"] for x in new]})
                     return
+            if rc != 0 and not new and c[0] == "undo" and after_tree != before_tree and \
+                    all(k.endswith(".rej") and k not in before_tree for k, _, _ in cli.diff_snap(before_tree, after_tree)):
+                self.known.add("failed_undo_leaves_rej")
+                return    # the model abstracts overlapping operations on one file away: stop this sequence here
             if rc != 0 and (after_tree != before_tree or new):
                 self.oracle_fail.append({"why": "a rejected/failed command changed the tree or the history", "step": stepno,
                                          "cmd": c, "rc": rc, "stderr": e.decode("utf-8", "replace")[-300:],
@@ -250,6 +255,7 @@ def run(R):
                     ("sleep",), ("redo", ("idx", 1)), ("undo", ("idx", 0)), ("undo", ("idx", 0))])
     scripts += [script_random(r, r.randint(4, 12)) for _ in range(10 if quick else 300)]
     fails, dis = [], []
+    known = set()
     stats = {"sequences": 0, "commands": 0, "lengths": {}}
     for sc in scripts:
         with cli.Sandbox(base_tree()) as sb:
@@ -263,11 +269,18 @@ def run(R):
                 R.sample({"script": sc, "final_history_len": len(sb.history() or []), "tree_ops": tree_counts(sb)})
             for f in S.oracle_fail:
                 fails.append({**f, "script": sc})
+            known |= S.known
             for d in S.problems:
                 dis.append({**d, "script": sc})
     M.close()
     R.coverage["input_distribution"] = stats
     R.disagreements = len(dis)
+    listed = {f["class"]: f for f in core.known_findings("C10")}
+    for cls in sorted(known):
+        if cls in listed:
+            R.known(cls, listed[cls]["what"])
+        else:
+            fails.append({"why": f"violation class {cls} is not a listed known finding"})
     for f in fails[:3]:
         R.violation(f["why"], {"kind": "impl_failure", **f})
     if fails:
